@@ -619,10 +619,8 @@ class BoundaryObserver:
         for rel, data in files.items():
             parts = rel.split("/")
             base = parts[-1]
-            if len(parts) >= 3 and parts[0] in ("objects", "metadata", "refs") and probe.staging_name(parts[1]):
-                continue
-            if base.endswith("_delete") or rel in ("hashstore.yaml", "python_client.log"):
-                continue
+            if absstate.permanent_kind(rel, self.layout) in (None, "config"):
+                continue        # staging files and deletion markers are not at a permanent address (C05 judges leftovers)
             self.files_read += 1
             seen.add(rel)
             if parts[0] == "objects":
